@@ -10,7 +10,9 @@ from fractions import Fraction as Fr
 
 from vlib import cl, cn, co, cp, cq, cz, coq_eval_bools
 
-IMPORTS_SRC = "From PV Require C19.SrcRun C19.SrcRunMc.\n"
+IMPORTS_SRC = "From PV Require C19.SrcRun.\n"          # unit C19Src (sampler, binomial)
+IMPORTS_SRC_MC = "From PV Require C19.SrcRunMc.\n"     # unit C19McSrc (Metropolis-Hastings blocks): evaluated separately, so that a
+#                                                         break of one unit leaves the other unit's source run standing
 SRC_THEOREMS = ["c19_source_srswor_is_model", "c19_source_srswor_raises_iff", "c19_source_srswor_cardinality_and_positions",
                 "c19_source_binom_is_model", "c19_source_binom_is_pascal", "c19_source_binom_is_factorial_quotient",
                 "c19_source_mh_step_is_model", "c19_source_mh_step_accepts_all_when_equal"]
@@ -119,11 +121,21 @@ def source_tie(chk, cases, outs):
         chk.extra["source_tie_run"] = {"cases": 0, "disagreements": 0}
         return
     t0 = time.time()
-    try:
-        res = coq_eval_bools(chk.workdir, IMPORTS_SRC, terms, shard=60, tag="src")
-    except CoqError as e:
-        chk.extra["source_tie_run"] = "not evaluated: " + str(e)[-400:]
+    res, not_eval = [None] * len(terms), {}
+    for tag, imports, sel in (("src", IMPORTS_SRC, [j for j, k in enumerate(kinds) if k != "imh"]),
+                              ("srcmc", IMPORTS_SRC_MC, [j for j, k in enumerate(kinds) if k == "imh"])):
+        if not sel:
+            continue
+        try:
+            for j, ok in zip(sel, coq_eval_bools(chk.workdir, imports, [terms[j] for j in sel], shard=60, tag=tag)):
+                res[j] = ok
+        except CoqError as e:
+            not_eval[tag] = str(e)[-400:]
+    if not_eval and all(r is None for r in res):
+        chk.extra["source_tie_run"] = "not evaluated: " + "; ".join(f"{k}: {v}" for k, v in not_eval.items())
         return
+    keep = [j for j, r in enumerate(res) if r is not None]
+    idx, terms, kinds, res = [idx[j] for j in keep], [terms[j] for j in keep], [kinds[j] for j in keep], [res[j] for j in keep]
     bad = [j for j, ok in enumerate(res) if not ok]
     sr = [i for i, k in zip(idx, kinds) if k == "srswor"]
     bi = [i for i, k in zip(idx, kinds) if k == "binom"]
@@ -138,6 +150,8 @@ def source_tie(chk, cases, outs):
         "binom_raises": sum(1 for i in bi if outs[i].get("exc")),
         "imh": len(mh), "imh_steps": sum(cases[i]["N"] for i in mh), "imh_given": sum(1 for i in mh if cases[i]["given"] is not None),
         "imh_same": sum(1 for i in mh if cases[i]["same"])}
+    if not_eval:
+        chk.extra["source_tie_run"]["not_evaluated"] = not_eval
     chk.count("source_tie_cases", len(idx))
     if bad:
         j = bad[0]
